@@ -156,15 +156,20 @@ Member3(v, items) ==
   LET vs == {SameScalar(v, items[i]) : i \in DOMAIN items} IN
   IF "accept" \in vs THEN "accept" ELSE IF "unspec" \in vs THEN "unspec" ELSE "reject"
 
+\* a count written in a rule (lengths, item counts, digits), as far as it can matter: TLC integers are 32 bit, and no string or array the
+\* model handles is longer than 10^9 - a count of ten digits or more (leading zeros aside) stands for "more than any length"
+RECURSIVE StripZeros(_)
+StripZeros(ds) == IF ds # <<>> /\ Head(ds) = 0 THEN StripZeros(Tail(ds)) ELSE ds
+Count(b) == LET ds == StripZeros(N!TakeDigits(b)) IN IF Len(ds) > 9 THEN 1000000000 ELSE N!DigitsToInt(ds, 0)
 \* ---- one rule on one scalar value (value already of an admissible kind) ----
 RuleVerdict(node, r, v, enums) ==
   CASE r.n = "min" -> IF v.t # "num" THEN "reject"
                       ELSE LET c == N!Cmp(N!NF(v.b), N!NF(r.v.b)) IN B3(IF BoolRule(node, "exclusiveMinimum") THEN c > 0 ELSE c >= 0)
     [] r.n = "max" -> IF v.t # "num" THEN "reject"
                       ELSE LET c == N!Cmp(N!NF(v.b), N!NF(r.v.b)) IN B3(IF BoolRule(node, "exclusiveMaximum") THEN c < 0 ELSE c <= 0)
-    [] r.n = "precision" -> IF v.t # "num" THEN "reject" ELSE B3(N!FracLen(N!NF(v.b)) <= N!DigitsToInt(N!TakeDigits(r.v.b), 0))
-    [] r.n = "minLength" -> IF v.t # "str" THEN "reject" ELSE IF ~IsAscii(v.c) THEN "unspec" ELSE B3(Len(v.c) >= N!DigitsToInt(N!TakeDigits(r.v.b), 0))
-    [] r.n = "maxLength" -> IF v.t # "str" THEN "reject" ELSE IF ~IsAscii(v.c) THEN "unspec" ELSE B3(Len(v.c) <= N!DigitsToInt(N!TakeDigits(r.v.b), 0))
+    [] r.n = "precision" -> IF v.t # "num" THEN "reject" ELSE B3(N!FracLen(N!NF(v.b)) <= Count(r.v.b))
+    [] r.n = "minLength" -> IF v.t # "str" THEN "reject" ELSE IF ~IsAscii(v.c) THEN "unspec" ELSE B3(Len(v.c) >= Count(r.v.b))
+    [] r.n = "maxLength" -> IF v.t # "str" THEN "reject" ELSE IF ~IsAscii(v.c) THEN "unspec" ELSE B3(Len(v.c) <= Count(r.v.b))
     [] r.n = "regex" -> IF v.t # "str" THEN "reject" ELSE B3(Search(r.v.re, v.c))
     [] r.n = "const" -> IF r.v.bv THEN SameScalar(v, node.v) ELSE "accept"
     [] r.n = "type"  -> IF r.v.s \in Formats THEN (IF v.t # "str" THEN "reject" ELSE FormatVerdict(r.v.s, v.c)) ELSE "accept"
@@ -223,7 +228,7 @@ AddlKindVerdict(tn, v) ==
   ELSE IF tn \in Formats THEN B3(v.t = "str")             \* IsEqualSoft: formats are strings, content not checked
   ELSE KindNameVerdict(tn, v)
 
-ItemsRule(node, name) == N!DigitsToInt(N!TakeDigits(RuleV(node, name).b), 0)
+ItemsRule(node, name) == Count(RuleV(node, name).b)
 
 RECURSIVE Acc(_, _, _, _, _), RefUnion(_, _, _, _, _), ObjProps(_, _, _)
 \* own properties followed by the inherited ones (allOf, transitively); seenT guards against allOf cycles
